@@ -29,6 +29,7 @@ Three parts:
 
 from __future__ import annotations
 
+import hashlib
 import io
 import itertools
 
@@ -129,15 +130,20 @@ ASSUMPTIONS = [
     "(1-D encodings) the bare int; the first form that does not raise is the answer that is judged",
     "run_length_data / binary_run_length_data are only read on flat (1-D) encodings (documented ValueError "
     "otherwise); binary_run_length_data only on bool arrays",
-    "binvox: only cubic grids with axis-aligned uniform |scale| transforms are in the exporter's documented "
-    "domain; RuntimeError (rotation/shear) and ValueError (non-uniform scale) from export are accepted "
-    "refusals on exactly those transform classes; a 1x1x1 grid has no representable pitch and is skipped",
+    "binvox: the exporter documents 'uniform scale' (extent = pitch * (n - 1) equal on the three axes) as its "
+    "only restriction: judged on cubic grids with axis-aligned uniform |pitch| and on non-cubic grids given a "
+    "per-axis pitch that makes the extent uniform; RuntimeError (rotation/shear) and ValueError (non-uniform "
+    "scale) from export are accepted refusals on exactly those transform classes; a grid with an axis of "
+    "length 1 has no representable pitch and is skipped",
     "VoxelGrid.bounds is not in the statement: it is judged exactly only for axis-aligned transforms and as "
     "containment of every filled cell's corners otherwise",
 ]
 EXHAUSTIVE = {"quick": False, "thorough": False}
 
-COUNT_DTYPES = {"uint8": np.uint8, "uint16": np.uint16, "int64": np.int64}
+COUNT_DTYPES = {"uint8": np.uint8, "uint16": np.uint16, "int64": np.int64,
+                # the other integer widths ("every integer count width"): judged on the free functions
+                "int8": np.int8, "int32": np.int32, "uint32": np.uint32, "uint64": np.uint64}
+READ_DTYPES = ("uint8", "uint16", "int64")  # count dtypes asked of run_length_data on every chain
 
 
 # =============================================================================================
@@ -360,11 +366,13 @@ def check_sequence(run, runs, dnames, rng=None, level=2, only=None):
     for dname in dnames:
         dt = COUNT_DTYPES[dname]
         maxc = _maxc(dname)
-        width = width_class(n, longest, dname)
+        width = wbare = width_class(n, longest, dname)
+        wsfx = "" if dname in READ_DTYPES else "," + dname  # the other count widths: input classes of their own
+        width += wsfx
         run.state("rl_width", (dname, width, fill))
         dense = np.array(seq, dtype=bool if binary else np.int64)
         split_rle = ref_rle_encode(runs, maxc)
-        variants = [("split", "canon" if width != "longrun" else "noncanon", split_rle)]
+        variants = [("split", "canon" if wbare != "longrun" else "noncanon", split_rle)]
         if level >= 2 and n <= 64:
             variants.append(("frag", "noncanon", ref_rle_encode(fragment(runs), maxc)))
 
@@ -413,7 +421,7 @@ def check_sequence(run, runs, dnames, rng=None, level=2, only=None):
                 lambda g: [int(x) for x in g] == canon_brle,
                 dtype=dname,
             )
-            bvariants = [("split", "canon" if width != "longrun" else "noncanon", split_brle)]
+            bvariants = [("split", "canon" if wbare != "longrun" else "noncanon", split_brle)]
             if level >= 2 and n <= 64:
                 bvariants.append(("frag", "noncanon", ref_brle_encode(fragment(runs), maxc)))
                 if n:
@@ -434,16 +442,16 @@ def check_sequence(run, runs, dnames, rng=None, level=2, only=None):
                 idx = _thin(idx, n)
                 exp = [seq[i] for i in idx]
                 for kind in ("array", "list"):
-                    if kind == "list" and (width != "short" or (level < 2 and icls != "repeated")):
+                    if kind == "list" and (wbare != "short" or (level < 2 and icls != "repeated")):
                         continue  # list handling is independent of the count width: judged on short inputs
-                    if level < 2 and width == "short" and icls == "single":
+                    if level < 2 and wbare == "short" and icls == "single":
                         continue
                     ind = np.array(idx, dtype=np.int64) if kind == "array" else list(idx)
                     gc = "idx=%s,%s" % (kind, width)
                     run.state("rl_index_class", (kind, icls))
                     ex2 = {"dtype": dname, "variant": vname, "idx": idx, "idx_kind": kind, "dk": (kind, icls)}
                     pg = lambda g: np.asarray(g).shape == (len(idx),) and [int(x) for x in g] == exp  # noqa: E731
-                    if level >= 2 or width != "short" or icls == "repeated":
+                    if level >= 2 or wbare != "short" or icls == "repeated":
                         judge(prefix + "_gather_1d", gc, lambda: fns[0](data.copy(), ind), pg, **ex2)
                     if level >= 2 or (icls == "repeated" and kind == "array"):
                         judge(prefix + "_gatherer_1d", gc, lambda: fns[1](ind)(data.copy()), pg, **ex2)
@@ -484,10 +492,10 @@ def check_sequence(run, runs, dnames, rng=None, level=2, only=None):
                 if level >= 2:
                     judge("rle_to_brle:dtype_none", width, lambda: rl.rle_to_brle(rle.copy()),
                           lambda g: ref_brle_decode(list(g)) == seq, **ex)
-            judge("rle_reverse", "%s,%s" % (last, form), lambda: rl.rle_reverse(rle.copy()),
+            judge("rle_reverse", "%s,%s%s" % (last, form, wsfx), lambda: rl.rle_reverse(rle.copy()),
                   lambda g: ref_rle_decode(g) == seq[::-1], **ex)
-            if level >= 2 and width == "short":
-                judge("rle_reverse:list", "list", lambda: rl.rle_reverse(list(rle_list)),
+            if level >= 2 and wbare == "short":
+                judge("rle_reverse:list", "list" + wsfx, lambda: rl.rle_reverse(list(rle_list)),
                       lambda g: ref_rle_decode(g) == seq[::-1], **ex)
             judge("rle_strip", "%s,%s" % (ends, width), lambda: rl.rle_strip(rle.copy()),
                   lambda g: p_strip(g, ref_rle_decode), **ex)
@@ -511,15 +519,15 @@ def check_sequence(run, runs, dnames, rng=None, level=2, only=None):
             ex = {"dtype": dname, "variant": vname}
             judge("brle_to_dense", width, lambda: rl.brle_to_dense(brle.copy()),
                   lambda g: np.asarray(g).ndim == 1 and [int(x) for x in np.asarray(g).tolist()] == seq, **ex)
-            if width == "short" and (level >= 2 or n <= 8):
-                judge("brle_to_dense:vals", "vals", lambda: rl.brle_to_dense(brle.copy(), vals=[7, 9]),
+            if wbare == "short" and (level >= 2 or n <= 8):
+                judge("brle_to_dense:vals", "vals" + wsfx, lambda: rl.brle_to_dense(brle.copy(), vals=[7, 9]),
                       lambda g: [int(x) for x in np.asarray(g).tolist()] == [9 if v else 7 for v in seq], **ex)
             judge("brle_length", width, lambda: rl.brle_length(brle.copy()), lambda g: int(g) == n, **ex)
             judge("brle_to_brle", width, lambda: rl.brle_to_brle(brle.copy(), dtype=dt), p_brle, **ex)
             judge("brle_to_rle", width, lambda: rl.brle_to_rle(brle.copy(), dtype=dt), p_rle, **ex)
             judge("brle_logical_not", width, lambda: rl.brle_logical_not(brle.copy()),
                   lambda g: ref_brle_decode(g) == [1 - v for v in seq], **ex)
-            judge("brle_reverse", "%s,%s" % (last, form), lambda: rl.brle_reverse(brle.copy()),
+            judge("brle_reverse", "%s,%s%s" % (last, form, wsfx), lambda: rl.brle_reverse(brle.copy()),
                   lambda g: ref_brle_decode(g) == seq[::-1], **ex)
             judge("brle_strip", "%s,%s" % (ends, width), lambda: rl.brle_strip(brle.copy()),
                   lambda g: p_strip(g, ref_brle_decode), **ex)
@@ -584,6 +592,11 @@ def part_runlength(run, frac_end):
         item += 1
         if run.mine(item):
             check_sequence(run, runs, ("uint8", "uint16", "int64"), level=2)
+    # every other integer count width: signed narrow (runs around 127), 32 bit, unsigned 64 bit
+    for j, runs in enumerate(long_run_patterns((127, 128)) + long_run_patterns((255, 300))):
+        item += 1
+        if run.mine(item):
+            check_sequence(run, runs, ("int8", "int32", "uint32", "uint64"), level=2 if j % 4 == 0 else 1)
     for j, runs in enumerate(long_run_patterns(LONG_RUNS_U16)):
         item += 1
         if run.tier == "quick" and j % 7 not in (0, 1, 2, 6):
@@ -599,7 +612,8 @@ def part_runlength(run, frac_end):
                 continue
             item += 1
             if run.mine(item):
-                check_sequence(run, runs_of(seq), ("int64",) if n > 3 else ("uint8", "int64"), level=2 if n <= 4 else 1)
+                check_sequence(run, runs_of(seq), ("int64",) if n > 3 else ("uint8", "int64", "uint64", "int32"),
+                               level=2 if n <= 4 else 1)
         if past(0.25):
             run.count("rl_value_sequences_cut_short")
             break
@@ -613,6 +627,7 @@ def part_runlength(run, frac_end):
             seq = [(bits >> (n - 1 - i)) & 1 for i in range(n)]
             if n <= 6:
                 check_sequence(run, runs_of(seq), ("uint8", "uint16", "int64"), level=2)
+                check_sequence(run, runs_of(seq), ("int8", "int32", "uint32", "uint64"), level=2 if n <= 4 else 1)
             else:
                 # count width cannot matter for runs this short: one dtype, rotating
                 check_sequence(run, runs_of(seq), (("uint8", "uint16", "int64")[bits % 3],), level=2 if n <= 7 else 1)
@@ -774,30 +789,67 @@ def nd_masks(X, rng=None):
     return out
 
 
-def read_battery(run, enc, X, recipe, rng=None, only=None, marks=""):
-    """Every read of `enc` against the reference array X.  Returns the chain label."""
-    label = chain_of(enc) + marks
+LIGHT_READS = ("dense", "sum", "is_empty", "sparse_indices", "sparse_values", "gather_nd", "mask", "stripped")
+
+
+def read_battery(run, enc, X, recipe, rng=None, only=None, marks="", label=None, rfmt="%s", light=False,
+                 fresh=None):
+    """
+    Every read of `enc` against the reference array X.  Returns the chain label.
+    `rfmt` renames the reads of a later pass of a read history ('%s@again': the same object read a
+    second time after the whole battery; 'base[Sparse].%s': an object below the view, read after the
+    view was read); `light` keeps one index set / mask per read (the later passes of a history).
+    """
+    label = (chain_of(enc) + marks) if label is None else label
     nd = X.ndim
     nzcount = int(np.count_nonzero(X))
     is_bool = X.dtype == bool
-    digest = (X, repr(recipe))
+    # digest of (array, recipe) computed once per battery, handed to run.case as bytes
+    digest = (hashlib.blake2b(("%s|%s|%r|" % (X.dtype, X.shape, recipe)).encode() + np.ascontiguousarray(X).tobytes(),
+                              digest_size=12).digest(),)
+    seen = {}
 
     def cell(read, thunk, pred, sub=None, **extra):
         if only is not None and read != only:
             return None
+        if light and read not in LIGHT_READS:
+            return None
+        nonlocal enc
+        base_read = read
+        read = rfmt % read
         sym, detail = _outcome(thunk, pred)
+        plain_label = None
+        if sym != "ok" and fresh is not None:
+            # is it the history, or is the plain cell broken?  the same read on a never-read object
+            kept = enc
+            try:
+                enc, plain_label = fresh()
+                fsym, fdetail = _outcome(thunk, pred)
+            except Exception:
+                fsym = "ok"
+            finally:
+                enc = kept
+            if fsym == "ok":
+                plain_label = None
+            else:
+                sym, detail, read = fsym, fdetail, base_read
+        lab = label if plain_label is None else plain_label
         run.count("enc_reads")
-        run.count("table:%s|%s|%s" % (label, read, sym))
-        run.state("cell", (label, read, sym))
-        run.state("chain", label)
-        run.case("enc:" + read, label, read, sub, *digest, nontrivial=X.size > 0)
+        run.count("table:%s|%s|%s" % (lab, read, sym))
+        run.state("cell", (lab, read, sym))
+        run.state("chain", lab)
+        # arrays inside `sub` go in as digest parts of their own (bytes, not repr)
+        subparts = tuple((str(q.shape).encode() + q.tobytes()) if isinstance(q, np.ndarray) else q
+                         for q in (sub if isinstance(sub, tuple) else (sub,)))
+        run.case("enc:" + base_read + (rfmt[rfmt.index("%s") + 2:] if read != base_read else ""), lab, read,
+                 *subparts, *digest, nontrivial=X.size > 0)
         if sym != "ok":
-            case = {"part": "enc", "array": _pack(X), "recipe": recipe, "read": read, "chain": label,
+            case = {"part": "enc", "array": _pack(X), "recipe": recipe, "read": read, "chain": lab,
                     "sub": sub, "observed": detail}
             case.update(extra)
             run.violation(
-                "enc=%s read=%s%s sym=%s" % (label, read, " in=empty" if nzcount == 0 and read in EMPTY_READS else "", sym),
-                "%s.%s does not answer like the dense array it represents" % (label, read.split(":")[0]),
+                "enc=%s read=%s%s sym=%s" % (lab, read, " in=empty" if nzcount == 0 and base_read in EMPTY_READS else "", sym),
+                "%s.%s does not answer like the dense array it represents" % (lab, read.split(":")[0]),
                 case,
             )
         return sym
@@ -830,7 +882,14 @@ def read_battery(run, enc, X, recipe, rng=None, only=None, marks=""):
             return False
         return sorted(map(tuple, np.asarray(g).tolist())) == exp_rows if nzcount else True
 
-    si_sym = cell("sparse_indices", lambda: enc.sparse_indices, p_si)
+    def read_si():
+        g = enc.sparse_indices
+        # what this read answered, kept by value: the oracle itself never reads the object (an oracle
+        # that reads twice would hide a read that toggles state) and the answer is looked at later
+        seen["si"] = np.array(g, copy=True)
+        return g
+
+    si_sym = cell("sparse_indices", read_si, p_si)
 
     def p_sv(g):
         g = np.asarray(g)
@@ -839,14 +898,15 @@ def read_battery(run, enc, X, recipe, rng=None, only=None, marks=""):
         if sorted(g.tolist()) != sorted(X[X != 0].tolist()):
             return False
         if si_sym == "ok" and nzcount:
-            si = norm_indices(enc.sparse_indices)
+            si = norm_indices(seen["si"])
             return bool(np.array_equal(X[tuple(np.asarray(si).T)], g))
         return True
 
     cell("sparse_values", lambda: enc.sparse_values, p_sv)
 
     if X.size:
-        for icls, idx in nd_index_sets(X.shape, rng):
+        isets = nd_index_sets(X.shape, rng)
+        for icls, idx in ([s for s in isets if len(s[1]) > 1][:1] if light else isets):
             exp = X[tuple(idx.T)]
             k = len(idx)
             read = "gather_nd:single" if k == 1 else "gather_nd"
@@ -859,7 +919,7 @@ def read_battery(run, enc, X, recipe, rng=None, only=None, marks=""):
                      idx=flat, idx_class=icls)
                 cell("gather:list", lambda: enc.gather([int(i) for i in flat]), lambda g: same(g, exp),
                      sub=(icls, idx), idx=flat, idx_class=icls)
-        for mcls, m in nd_masks(X, rng):
+        for mcls, m in nd_masks(X, rng)[: 1 if light else None]:
             exp = X[m]
             run.state("mask_class", mcls)
             cell("mask", lambda: enc.mask(m.copy()), lambda g: same(g, exp), sub=(mcls, m), mask_class=mcls,
@@ -911,7 +971,7 @@ def read_battery(run, enc, X, recipe, rng=None, only=None, marks=""):
          lambda c: c is not enc and tuple(int(s) for s in c.shape) == X.shape and same(c.dense, X))
     if nd == 1 and X.size:
         flat = [int(v) for v in X.tolist()]
-        for dname in COUNT_DTYPES:
+        for dname in READ_DTYPES:
             cell("run_length_data", lambda: enc.run_length_data(dtype=COUNT_DTYPES[dname]),
                  lambda g: np.asarray(g).ndim == 1 and ref_rle_decode(g) == flat
                  and _counts_fit(np.asarray(g)[1::2], dname), sub=dname, dtype=dname)
@@ -932,26 +992,45 @@ def _unpack(d):
     return np.array(expand(d["runs"]), dtype=np.dtype(d["dtype"])).reshape(d["shape"])
 
 
-def run_recipe(run, X, recipe, rng=None, only=None):
+def _build(recipe, X, nops=None):
+    """(encoding, reference array, marks, stages) of the first `nops` view steps of a recipe"""
+    marks = ""
+    stages = []
+    enc = build_base(recipe["base"], X, recipe.get("cdtype", "int64"))
+    ref = np.array(X)
+    ops = recipe["ops"] if nops is None else recipe["ops"][:nops]
+    for op in ops:
+        before = enc
+        stages.append((before, ref, marks))
+        enc, ref = apply_op(enc, ref, op)
+        if op[0] == "reshape" and -1 in tuple(op[1]):
+            marks += ".reshape[-1]"  # an inferred axis is its own input class of reshape
+            continue
+        if not op[0].islower() or _depth(enc) > _depth(before):
+            continue
+        if enc is before:
+            marks += "." + op[0] + "[noop]"
+        elif _depth(enc) == 0 or op[0] in ("flip", "transpose"):
+            marks += "." + op[0]
+    return enc, ref, marks, stages
+
+
+def run_recipe(run, X, recipe, rng=None, only=None, history=1):
     """
     recipe = {"base":..., "cdtype":..., "ops":[...]}; builds the encoding and reads it.
     The chain label is read off the object built; a public-method step that did not wrap a new
     lazy layer (eager Dense / RLE / BRLE results, merged flips / transposes) is kept in the label
     as a '.method' suffix so that the cell says how the object was obtained.
+
+    history >= 1: read histories on the SAME objects after the plain battery: every read once more
+    (no read may change what a later read answers: caches, arrays shared between a view and what it
+    wraps), then every object the view was derived from (reading a view must not disturb its base).
+    Same oracle, same reference arrays.  A history cell that is not ok is re-executed on a freshly
+    built, never-read object: if that fails too the history is not what matters and the plain cell
+    `enc=<chain> read=<read>` is what gets reported.
     """
-    marks = ""
     try:
-        enc = build_base(recipe["base"], X, recipe.get("cdtype", "int64"))
-        ref = np.array(X)
-        for op in recipe["ops"]:
-            before = enc
-            enc, ref = apply_op(enc, ref, op)
-            if not op[0].islower() or _depth(enc) > _depth(before):
-                continue
-            if enc is before:
-                marks += "." + op[0] + "[noop]"
-            elif _depth(enc) == 0 or op[0] in ("flip", "transpose"):
-                marks += "." + op[0]
+        enc, ref, marks, stages = _build(recipe, X)
     except Exception as e:
         label = "%s%s" % (recipe["base"], "".join("." + str(o[0]) for o in recipe["ops"]))
         run.count("table:%s|build|raised:%s" % (label, type(e).__name__))
@@ -963,7 +1042,21 @@ def run_recipe(run, X, recipe, rng=None, only=None):
             {"part": "enc", "array": _pack(X), "recipe": recipe, "read": "build", "observed": repr(e)[:240]},
         )
         return None
-    return read_battery(run, enc, ref, recipe, rng=rng, only=only, marks=marks)
+    label = read_battery(run, enc, ref, recipe, rng=rng, only=only, marks=marks)
+    if history and ref.size:
+        read_battery(run, enc, ref, recipe, rng=None, only=only, label=label, rfmt="%s@again", light=history < 2,
+                     fresh=lambda: (_build(recipe, X)[0], label))
+        done = {id(enc)}
+        for k in range(len(stages) - 1, -1, -1):
+            below, bref, bmarks = stages[k]
+            if id(below) in done:
+                continue
+            done.add(id(below))
+            blabel = chain_of(below) + bmarks
+            read_battery(run, below, bref, recipe, rng=None, only=only, label=label,
+                         rfmt="base[%s].%%s@after_view" % blabel, light=True,
+                         fresh=lambda k=k, blabel=blabel: (_build(recipe, X, k)[0], blabel))
+    return label
 
 
 def _subsets(n):
@@ -975,13 +1068,19 @@ def _perms(nd):
     return [p for p in itertools.permutations(range(nd)) if p != tuple(range(nd))]
 
 
-def _reshapes(shape):
+def _reshapes(shape, inferred=True):
+    """target shapes; with `inferred` also the ones that leave an axis to be inferred (-1), as np.reshape allows"""
     nd, N = len(shape), int(np.prod(shape))
     if nd == 3:
-        return [(shape[0] * shape[1], shape[2]), (shape[2], shape[0], shape[1]), (1, N, 1)]
-    if nd == 2:
-        return [(shape[1], shape[0]), (1, shape[0], shape[1])]
-    return [(1, N), (N, 1, 1)] + ([(2, N // 2)] if N % 2 == 0 and N else [])
+        out = [(shape[0] * shape[1], shape[2]), (shape[2], shape[0], shape[1]), (1, N, 1)]
+        more = [(shape[0], -1), (-1, shape[2], shape[1])]
+    elif nd == 2:
+        out = [(shape[1], shape[0]), (1, shape[0], shape[1])]
+        more = [(-1, shape[0]), (1, -1, 1)]
+    else:
+        out = [(1, N), (N, 1, 1)] + ([(2, N // 2)] if N % 2 == 0 and N else [])
+        more = [(-1, 1)] + ([(2, -1)] if N % 2 == 0 and N else [])
+    return out + (more if inferred and N else [])
 
 
 def single_views(shape):
@@ -1028,6 +1127,11 @@ def recipes_for(X, level=2):
     if level == 0:
         return out
     singles = single_views(X.shape)
+    # narrow counts below a view (what load_binvox builds: uint8 RLE -> reshape -> transpose): every reshape
+    # (the size of a narrow-count encoding is a numpy scalar of its own kind), flat, one transpose
+    for base in ("RLE", "BRLE") if X.dtype == bool else ("RLE",):
+        for op in [o for o in singles if o[0] in ("reshape", "flat")] + [o for o in singles if o[0] == "transpose"][:1]:
+            out.append({"base": base, "cdtype": "uint8", "ops": [op]})
     for base, cd in bases:
         if base == "Sparse" and nd != 3:
             continue
@@ -1035,8 +1139,23 @@ def recipes_for(X, level=2):
             if base == "BRLE" and nd > 1 and op not in (["transpose", [0, 2, 1]], ["flat"]):
                 continue  # same lazy classes as over RLE; keep the binvox transpose and flat
             out.append({"base": base, "cdtype": cd, "ops": [op]})
+    # eager results that keep a numpy *view* as their data (DenseEncoding.transpose / reshape / flat hand
+    # the strided view on): a second step then works on memory that is not C ordered (a full reversal of
+    # the axes is Fortran ordered, so is any permutation that only moves unit axes)
+    if nd == 2:
+        for op2 in [["flat"]] + [["reshape", list(sh)] for sh in _reshapes(X.shape[::-1])[:2]] + [["flip", [1]]]:
+            out.append({"base": "Dense", "cdtype": "int64", "ops": [["transpose", [1, 0]], op2]})
     if level == 1 or nd != 3:
         return out
+    firsts = [["transpose", list(p)] for p in _perms(3)] + [["flip", [0, 2]], ["reshape", list(_reshapes(X.shape)[1])]]
+    if not X.any() or np.count_nonzero(X) <= 3:
+        firsts = []  # memory order shows on patterned arrays only
+    for op1 in firsts:
+        s1 = _shape_after(X.shape, op1)
+        seconds = [["flat"]] + [["reshape", list(sh)] for sh in _reshapes(s1)[:2] + _reshapes(s1)[3:4]]
+        seconds += [["transpose", [2, 1, 0]], ["flip", [2]]]
+        for op2 in seconds:
+            out.append({"base": "Dense", "cdtype": "int64", "ops": [op1, op2]})
     # two-view compositions through the public API
     lazy1 = [["flip", [0]], ["flip", [0, 2]], ["flip", [0, 1, 2]], ["transpose", [0, 2, 1]], ["transpose", [1, 2, 0]],
              ["transpose", [2, 0, 1]]]
@@ -1096,6 +1215,13 @@ def enumerated_arrays():
         for tag, a in fills(shape):
             if tag not in ("corner0", "single"):
                 out.append(("1d:%s:%s" % (shape[0], tag), a))
+    # integer arrays of a narrow dtype (the values of an RLE share one array with the counts): values > 1 in
+    # runs long enough that value * count leaves the dtype
+    u8 = np.array([3] * 200 + [0] * 5 + [2] * 300 + [1] * 95, dtype=np.uint8)
+    out.append(("1d:600:u8_runs", u8))
+    out.append(("3d:6x10x10:u8_runs", u8.reshape(6, 10, 10)))
+    out.append(("3d:2x3x4:u8", (np.arange(24).reshape(2, 3, 4) * 7 % 4).astype(np.uint8)))
+    out.append(("1d:9:i16", np.array([0, 2, 2, 0, 1, 3, 3, 3, 0], dtype=np.int16)))
     # runs longer than uint8 counts: 7x8x9 = 504 full / nearly full, 1-D 600
     big = np.ones((7, 8, 9), dtype=bool)
     out.append(("3d:7x8x9:full", big))
@@ -1136,6 +1262,9 @@ def random_array(rng):
     return "rand:bool", rng.random(shape) < dens
 
 
+NO_HISTORY = ("empty", "full", "corner0", "corner1", "single", "last_only", "checker")
+
+
 def part_encodings(run, frac_end):
     item = 0
     arrays = enumerated_arrays()
@@ -1150,10 +1279,12 @@ def part_encodings(run, frac_end):
             if not run.mine(item):
                 continue
             run.state("array_class", tag.split(":")[0] + ":" + tag.split(":")[-1])
-            run_recipe(run, X, rec)
+            # read histories where a disturbed state can show: arrays that no flip / transpose maps to itself
+            run_recipe(run, X, rec, history=0 if tag.split(":")[-1] in NO_HISTORY else 1)
         if run.out_of_time(frac_end * 0.97):
             run.count("enc_enumeration_cut_short")
             break
+    run.note("elapsed_after_enumerated_encodings", round(run.elapsed(), 1))
     # random arrays
     while not run.out_of_time(frac_end):
         tag, X = random_array(run.rng)
@@ -1253,8 +1384,8 @@ def check_grid(run, X, base, cdtype, tcls, Mx, aligned, uniform, rng=None, only=
     # coarse transform group for the checks that go through the encoding
     grp = ("negscale" if (np.diag(L) < 0).any() else "plain") if aligned else "rotated"
 
-    def mk():
-        return VoxelGrid(build_base(base, X, cdtype), transform=Mx.copy())
+    def mk(M=None):
+        return VoxelGrid(build_base(base, X, cdtype), transform=(Mx if M is None else M).copy())
 
     def vcheck(name, thunk, pred, key, refusals=(), **extra):
         if only is not None and name != only:
@@ -1363,20 +1494,31 @@ def check_grid(run, X, base, cdtype, tcls, Mx, aligned, uniform, rng=None, only=
             vcheck("bounds", lambda: mk().bounds,
                    lambda g: np.all(np.asarray(g)[0] <= lo + atol) and np.all(np.asarray(g)[1] >= hi - atol), k_enc)
 
-    # ---- binvox: cubic grids only
+    # ---- binvox.  The exporter documents one restriction: "uniform scale", where scale is the extent
+    # pitch * (n - 1) of the grid along each axis.  Cubic grids with a uniform pitch satisfy it, and so do
+    # non-cubic grids whose pitch is chosen per axis to give every axis the same extent: those are
+    # exported with the transform below instead of Mx (axis-aligned uniform classes only).
+    if min(X.shape) == 1:
+        run.skip("binvox: an axis of length 1 has no representable pitch")
+        return
+    Mb, incls = Mx, ""
     if not cubic:
-        run.skip("binvox: non-cubic grid (exporter documents uniform scale only)")
-        return
-    if X.shape[0] == 1:
-        run.skip("binvox: 1x1x1 grid has no representable pitch")
-        return
+        if not (aligned and uniform):
+            run.skip("binvox: non-cubic grid with a transform that cannot give a uniform extent")
+            return
+        Mb = Mx.copy()
+        extent = abs(Mx[0, 0]) * (max(X.shape) - 1)
+        for a in range(3):
+            Mb[a, a] = np.sign(Mx[a, a]) * extent / (X.shape[a] - 1)
+        incls = " in=noncubic"
+    Lb = Mb[:3, :3]
     refusals = set()
     if not aligned:
         refusals.add("raised:RuntimeError")  # Transform.scale documents this for rotation / shear
     if not uniform:
         refusals |= {"raised:ValueError", "raised:RuntimeError"}  # "Can only export binvox with uniform scale"
-    exp_c = np.argwhere(X).astype(float) @ L.T + Mx[:3, 3]
-    ptol = atol * 10 + 1e-6 * scale * 8  # header floats are written with repr(): exact; pitch = scale / (n - 1)
+    exp_c = np.argwhere(X).astype(float) @ Lb.T + Mb[:3, 3]
+    ptol = atol * 10 + 1e-6 * (scale if cubic else np.abs(Lb).max()) * 8  # header floats are written with repr(): exact; pitch = scale / (n - 1)
 
     def p_back(back):
         if tuple(int(s) for s in back.shape) != X.shape:
@@ -1388,19 +1530,19 @@ def check_grid(run, X, base, cdtype, tcls, Mx, aligned, uniform, rng=None, only=
 
     for order in ("xzy", "xyz"):
         def roundtrip():
-            data = mk().export(file_type="binvox", axis_order=order)
+            data = mk(Mb).export(file_type="binvox", axis_order=order)
             if not isinstance(data, bytes):
                 raise TypeError("export did not return bytes")
             return binvox.load_binvox(io.BytesIO(data), axis_order=order)
 
-        vcheck("binvox:" + order, roundtrip, p_back, k_enc, refusals=refusals)
+        vcheck("binvox:" + order, roundtrip, p_back, k_enc + incls, refusals=refusals, binvox_matrix=Mb)
     if aligned and uniform:
         # the generic loader route with default axis order
         def via_load():
-            data = mk().export(file_type="binvox")
+            data = mk(Mb).export(file_type="binvox")
             return trimesh.load(io.BytesIO(data), file_type="binvox")
 
-        vcheck("binvox:load_default", via_load, p_back, k_enc)
+        vcheck("binvox:load_default", via_load, p_back, k_enc + incls, binvox_matrix=Mb)
 
 
 def _same_point_set(a, b, atol):
@@ -1427,6 +1569,8 @@ def part_voxelgrid(run, frac_end):
     while True:
         tfs = grid_transforms(run.rng)
         arrays = grid_arrays(run.rng)
+        # the patterned arrays of every shape (cubic and not) first: a time-boxed run sees every shape class
+        arrays.sort(key=lambda t: ("mod3", "random", "corner", "full", "empty").index(t[0]))
         for (tag, X), (base, cd) in itertools.product(
             arrays, (("Dense", "int64"), ("Sparse", "int64"), ("RLE", "uint8"), ("BRLE", "uint8"))
         ):
@@ -1454,7 +1598,9 @@ def part_voxelgrid(run, frac_end):
 def workload(run):
     # order: the cheap, wide tables first; budget fractions are cumulative
     part_voxelgrid(run, 0.18)
-    part_encodings(run, 0.50)
+    run.note("elapsed_after_voxelgrid", round(run.elapsed(), 1))
+    part_encodings(run, 0.54)
+    run.note("elapsed_after_encodings", round(run.elapsed(), 1))
     part_runlength(run, 0.97)
     cells = run.states.get("cell", set())
     chains = run.states.get("chain", set())
